@@ -80,6 +80,7 @@ fn request_parts(r: &Value, rng: &mut StdRng) -> (Vec<Vec<u8>>, String) {
 			"nonAscii" => vec!["parit\u{e9}".as_bytes().to_vec()],
 			"withPath" => vec![[format!("{h}/path"), format!("{h}:8080/x")][rng.random_range(0..2)].clone().into_bytes()],
 			"emptyHost" => vec![vec![]],
+			"starPort" => vec![format!("{h}:*").into_bytes()],
 			_ => vec![h.clone().into_bytes(), h.clone().into_bytes()],
 		};
 		let target = if r["uri"] == "valid" { format!("http://{h}/") } else { "/".to_string() };
